@@ -24,10 +24,12 @@ func (n *Namespace) Use(f NspMiddlewareFunc) {
 }
 
 func (n *Namespace) runMiddlewares(socket *serverSocket, handshake *Handshake) error {
+	// Middlewares are called without the lock: a middleware may call Use.
 	n.middlewareFuncsMu.RLock()
-	defer n.middlewareFuncsMu.RUnlock()
+	funcs := n.middlewareFuncs[:len(n.middlewareFuncs):len(n.middlewareFuncs)]
+	n.middlewareFuncsMu.RUnlock()
 
-	for _, f := range n.middlewareFuncs {
+	for _, f := range funcs {
 		err := f(socket, handshake)
 		if err != nil {
 			return &middlewareError{v: err}
@@ -71,15 +73,17 @@ func (s *serverSocket) checkMiddlewareFunc(rv reflect.Value) error {
 }
 
 func (s *serverSocket) callMiddlewares(eventName string, values []reflect.Value) error {
+	// Middlewares are called without the lock: a middleware may call Use.
 	s.middlewareFuncsMu.RLock()
-	defer s.middlewareFuncsMu.RUnlock()
+	funcs := s.middlewareFuncs[:len(s.middlewareFuncs):len(s.middlewareFuncs)]
+	s.middlewareFuncsMu.RUnlock()
 
 	// The signature of a middleware is: func(eventName string, v ...any) error
 	args := make([]reflect.Value, 0, len(values)+1)
 	args = append(args, reflect.ValueOf(eventName))
 	args = append(args, values...)
 
-	for _, f := range s.middlewareFuncs {
+	for _, f := range funcs {
 		err := s.callMiddlewareFunc(f, args)
 		if err != nil {
 			return err
